@@ -23,7 +23,7 @@ def poolOp (sdk : Bool) (p : RawPool) (op : String) (a b : String) : String :=
   | "apply_short" => match pInt a with | some d => showPool (applyShort p d) | none => "bad-op"
   | "apply_delta" => match pOptInt a, pOptInt b with
     | some dl, some ds => showPool (checkedApplyDelta p dl ds) | _, _ => "bad-op"
-  | "cancel" => showPool (if sdk then cancelDefault p else cancelProgram p)
+  | "cancel" => showPool (if sdk then cancelSdk sdkOverridesCancelAmounts p else cancelProgram p)
   | _ => "bad-op"
 
 def c40Engine (args : List String) : String :=
